@@ -766,8 +766,14 @@ pub fn decoder_family<J>(ctx: &mut Ctx, label: &str, layouts: &[usize], keys_of:
 where
     J: Fn(usize, KeyCode, u16, HandleControl, &Result<DecodedKey, String>) -> Option<(String, String)> + Sync,
 {
+    decoder_family_with(ctx, label, layouts, keys_of, max_inter, family_intermediates(), judge)
+}
+
+pub fn decoder_family_with<J>(ctx: &mut Ctx, label: &str, layouts: &[usize], keys_of: &(dyn Fn(usize) -> Vec<KeyCode> + Sync), max_inter: usize, inter: Vec<EvAct>, judge: J) -> u64
+where
+    J: Fn(usize, KeyCode, u16, HandleControl, &Result<DecodedKey, String>) -> Option<(String, String)> + Sync,
+{
     let paths = mods_paths();
-    let inter = family_intermediates();
     let n_states = 1024usize;
     let jobs: Vec<(usize, usize)> = layouts.iter().flat_map(|l| (0..n_states).map(move |s| (*l, s))).collect();
     let results = par_chunks(jobs.len(), |ji| {
